@@ -540,6 +540,42 @@ def check(facts, rep, tier, cfg):
                     "stalls before the upgrade (TLS handshake, connect) is waited for without bound, so the client neither retries nor gives up")
     if "client" in crate.features:
         rep.floor("C19.R9", "handshake drivers", k9, 1)
+    # ---- R12 every attempt to open the stream gets the whole configured timeout
+    rep.rule("C19.R12", "a stream request is given the configured channel_timeout on EVERY connection it is tried on: the timer raced against "
+                        "Multiplexor::new_stream_channel is `channel_timeout.sleep()` of the configured value itself (parameter / ClientArgs field "
+                        "through moves only), not a remainder computed from the age of the request - a parked request would otherwise time out at "
+                        "once on every later connection and never be served")
+    from an import inexact_steps as _ix12, nested_bodies as _nb12, logical_root as _lr12
+    k12 = 0
+    for b in crate.bodies:
+        if "/src/client/" not in b.file or "::tests::" in b.path:
+            continue
+        if not any(callee(t) and callee(t)["name"] == "new_stream_channel" and "Multiplexor" in callee(t)["path"] for _, t in b.calls()):
+            continue
+        root12 = _lr12(facts, b)
+        for nb in _nb12(facts, root12):
+            tr12 = None
+            for bi, t in nb.calls():
+                c = callee(t)
+                if not (c and c["name"] in ("sleep", "timeout", "timeout_at", "sleep_until") and t["args"]):
+                    continue
+                tr12 = tr12 or Tracer(facts, nb)
+                k12 += 1
+                rep.analysed(nb)
+                w12 = "%s (%s)" % (loc_str(t["loc"]), nb.path)
+
+                def src12(x):
+                    return x.kind == "param" or (x.kind == "field" and (x[2].isdigit() or (x[3] or "").endswith("ClientArgs")))
+                steps = _ix12(tr12.operand(t["args"][0]), src12, None)
+                if steps:
+                    rep.bad("C19.R12", "request-timeout-is-configured-value", w12,
+                            "the timer raced against the stream request is computed (`%s`), not the configured channel_timeout itself: a request "
+                            "that has waited (parked across a reconnect, queued during an outage) gets less than the configured time - possibly "
+                            "none - on the next connection and is parked again, forever" % steps[0])
+                else:
+                    rep.ok("C19.R12", "request-timeout-is-configured-value", w12, "timer = channel_timeout")
+    if "client" in crate.features:
+        rep.floor("C19.R12", "timers raced against the stream request", k12, 1)
     # ---- R10 an accepted local connection is queued, never refused because the request queue is momentarily full
     rep.rule("C19.R10", "client handlers acquire their slot on the stream-request channel by awaiting it (reserve / send), never by a non-blocking "
                         "try_reserve / try_send whose `Full` outcome would drop the local connection or end the listener")
